@@ -302,6 +302,23 @@ pub fn names_key(f: &Finding, p: &Program, _o: &Outcome) -> Option<String> {
     if got.len() != exp.len() {
         return None;
     }
+    // (0) a column of the frame comes back as `NULL`: two same-named columns selected, then one excluded
+    if got.iter().any(|g| g == "NULL") && f.sql.contains("SELECT NULL") {
+        let fr = main_frames(p);
+        let dup_then_except = fr.iter().enumerate().any(|(k, (f0, s))| match s {
+            Step::Select(items) => {
+                let names: Vec<(&str, &Option<String>)> = items.iter().filter_map(|it| match (&it.alias, &it.e) {
+                    (None, E::Col(i)) => f0.named(*i).map(|n| (n, &f0.cols[*i].input)),
+                    _ => None,
+                }).collect();
+                names.iter().enumerate().any(|(i, (n, inp))| names[..i].iter().any(|(m, jnp)| m == n && jnp != inp)) && fr[k + 1..].iter().any(|(_, s2)| matches!(s2, Step::SelectExcept(_)))
+            }
+            _ => false,
+        });
+        if dup_then_except {
+            return Some("column-unreachable-after-select-of-two-same-named-columns".into());
+        }
+    }
     // every misnamed column carries a generated helper name
     let wrong: Vec<usize> = (0..got.len()).filter(|&i| exp[i].as_ref().map(|n| n != &got[i]).unwrap_or(false)).collect();
     if wrong.is_empty() || !wrong.iter().all(|&i| helper_name(&got[i])) {
